@@ -1,6 +1,6 @@
 // ---- shim for the quantile glue of src/quantile/mod.rs (inner fn quantiles_axis_mut) -----------------------------------
 // N64 (noisy_float): only "is a valid quantile (0 <= q <= 1)" is visible
-#[derive(Clone, Copy)]
+#[derive(Clone, Copy, Debug)]
 pub struct N64 { pub bits: u64 }
 impl N64 {
     pub uninterp spec fn valid_q(self) -> bool;
@@ -9,6 +9,7 @@ impl N64 {
     pub fn verif_in_unit(self) -> (b: bool) ensures b == self.valid_q()
     { unimplemented!() }
 }
+#[derive(Debug)]
 pub enum QuantileError { InvalidQuantile(N64), EmptyInput }
 
 // the list of requested quantiles (ArrayView1<N64>: Copy)
@@ -247,3 +248,52 @@ pub proof fn axiom_dims_1d(d: Seq<usize>)
     requires d.len() == 1
     ensures nlanes_of(d, 0) == 1
 { }
+
+// ---- the skip-NaN quantile (quantile_axis_skipnan_mut) --------------------------------------------------------------
+pub trait MaybeNan: Sized {
+    type NotNan;
+    spec fn is_nan_spec(&self) -> bool;
+    spec fn not_nan_spec(&self) -> Self::NotNan;
+    // the missing value for None, otherwise the value that carries the given not-NaN value
+    fn from_not_nan_opt(v: Option<Self::NotNan>) -> (r: Self)
+        ensures v is None ==> r.is_nan_spec(), v matches Some(x) ==> !r.is_nan_spec() && r.not_nan_spec() == x;
+}
+pub open spec fn filter_not_nan<A: MaybeNan>(s: Seq<A>) -> Seq<A::NotNan>
+    decreases s.len()
+{
+    if s.len() == 0 { Seq::empty() } else if s.last().is_nan_spec() { filter_not_nan(s.drop_last()) } else { filter_not_nan(s.drop_last()).push(s.last().not_nan_spec()) }
+}
+// R18: `A::remove_nan_mut(lane)`.  Callee contract: the generic compaction is proved in unit `nan` (the typed wrappers'
+// pointer casts are covered by the Kani harnesses of C04): a 1-D view of exactly the not-missing values of the lane, in
+// some order (a trait method cannot state this here: its contract would refer to a function over the trait itself)
+#[verifier::external_body]
+pub fn verif_remove_nan_mut<A: MaybeNan>(lane: Lane<A>) -> (r: ArrL<A::NotNan>)
+    ensures r.dims().len() == 1, r.wf(0), r.dims()[0] == filter_not_nan(lane@).len(), r.count() == filter_not_nan(lane@).len(), perm(r.lanes(0)[0], filter_not_nan(lane@))
+{ unimplemented!() }
+impl<A> ArrL<A> {
+    #[verifier::external_body]
+    pub fn is_empty(&self) -> (b: bool) ensures b == (self.count() == 0)
+    { unimplemented!() }
+    // `map_axis_mut(axis, f)`: f applied to (a mutable view of) every lane along `axis`, each once; one result per lane.
+    // What the closure does to the lane is not tracked here (the lane is handed over by value in this shim): the state
+    // of the array after the call is left unspecified
+    #[verifier::external_body]
+    pub fn map_axis_mut<B, F: FnMut(Lane<A>) -> B>(&mut self, axis: Axis, f: F) -> (r: ArrS<B>)
+        requires
+            axis.0 < old(self).dims().len(),
+            forall|lane: Lane<A>| is_lane_of(lane@, old(self).lanes(axis.0 as int)) ==> #[trigger] call_requires(f, (lane,)),
+        ensures
+            r.elems().len() == old(self).lanes(axis.0 as int).len(),
+            forall|j: int| 0 <= j < r.elems().len() ==> lane_result(old(self).lanes(axis.0 as int)[j], f, #[trigger] r.elems()[j]),
+    { unimplemented!() }
+}
+pub open spec fn is_lane_of<A>(s: Seq<A>, ls: Seq<Seq<A>>) -> bool { exists|j: int| 0 <= j < ls.len() && #[trigger] ls[j] == s }
+pub open spec fn lane_result<A, B, F: FnMut(Lane<A>) -> B>(lane: Seq<A>, f: F, out: B) -> bool {
+    exists|l: Lane<A>| #[trigger] l@ == lane && call_ensures(f, (l,), out)
+}
+// what the skip-NaN quantile must return for one lane
+pub open spec fn skipq_entry<A: MaybeNan, I: Interpolate<A::NotNan>>(lane: Seq<A>, q: N64, out: A) -> bool where A::NotNan: Ord {
+    let f = filter_not_nan(lane);
+    if f.len() == 0 { out.is_nan_spec() }
+    else { !out.is_nan_spec() && exists|arr: Seq<A::NotNan>| #[trigger] perm(arr, f) && lane_entry::<A::NotNan, I>(arr, q, f.len() as usize, out.not_nan_spec()) }
+}
